@@ -9,12 +9,12 @@
 EXTENDS Naturals, Sequences, FiniteSets, Json, IOUtils, TLC, TLCExt
 
 H == INSTANCE HtmlSkip WITH Deviations <- {}, Alphabet <- {}, MaxLen <- 0,
-                            toks <- <<>>, cdata <- "", h <- [skip |-> 0, tag |-> ""], out <- {}
+                            toks <- <<>>, cdata <- "", h <- [skip |-> 0, tag |-> "", body |-> FALSE, dead |-> FALSE], out <- {}
 
 HB == INSTANCE HtmlSkip WITH Deviations <- {"CountVoidStartTag", "AnyStartTagIncrements", "AnyEndTagDecrements",
                                              "VoidRemovableNeverCloses", "NoClose"},
                             Alphabet <- {}, MaxLen <- 0,
-                            toks <- <<>>, cdata <- "", h <- [skip |-> 0, tag |-> ""], out <- {}
+                            toks <- <<>>, cdata <- "", h <- [skip |-> 0, tag |-> "", body |-> FALSE, dead |-> FALSE], out <- {}
 
 Traces == JsonDeserialize(IOEnv.TRACE_FILE)
 
@@ -29,7 +29,10 @@ IsEvent(a) == l <= Len(Traces[tid].ev) /\ Ev.a = a /\ l' = l + 1 /\ UNCHANGED ti
 
 SeenSet(e) == { e.seen[j] : j \in 1..Len(e.seen) }
 
-Verdict(e) == LET cls == H!Class(e.toks) IN
+XmlWrappers == {"epub"}                                   \* chapters are application/xhtml+xml: XML dialect
+ClassFor(e) == H!ClassX(e.toks, e.w \in XmlWrappers)
+
+Verdict(e) == LET cls == ClassFor(e) IN
               IF e.w \in RawWrappers THEN H!ConformsRaw(cls, SeenSet(e)) ELSE H!Conforms(cls, SeenSet(e))
 
 TraceObs == /\ IsEvent("Obs")
@@ -49,7 +52,7 @@ TraceAccept ==
 (* Explain mode (diagnosis of rejected traces only): never blocks; prints, for every event the
    specification rejects, the expected classification so that the report can show it.       *)
 ExplainObs == /\ IsEvent("Obs")
-              /\ (~Verdict(Ev)) => PrintT(<<"BAD", tid, l, H!Class(Ev.toks)>>)
+              /\ (~Verdict(Ev)) => PrintT(<<"BAD", tid, l, ClassFor(Ev)>>)
 ExplainSpec == TraceInit /\ [][ExplainObs]_vars
 
 (* Model-agreement mode (self-test of the ALGORITHM part, never part of the verdict): the observed
